@@ -337,7 +337,21 @@ def _run_callers(desc):
     from vt import sani
     sh = Shard()
     V = VRT()
-    for a, b in sani.threadsafe_pairs(("scoring_kernels",), ("score", "score_and_refine", "refine_assigned"), per_kernel=5):
+    # calls that really refine: 8 .. 14 non-coplanar peaks of this check's alphabet, different test matrices and peak lists per caller
+    U = ubis()
+    own = []
+    for (ua, ga), (ub_, gb), na, nb in ((U[1], U[1], 9, 12), (U[2], U[4], 14, 8), (U[4], U[5], 10, 10)):
+        specs = []
+        for (tm_, gen), n_, off in (((ua, ga), na, 0), ((ub_, gb), nb, 5)):
+            idx = [(3 * q + off) % len(ALPHA) for q in range(n_)]
+            gv = np.ascontiguousarray(peaks_for(gen)[idx])
+            lab = ((np.arange(n_) % 3 != 0) * 3).astype(np.int32)
+            specs.append((sani.Call("score_and_refine", [sani.A(np.ascontiguousarray(tm_), "io"), sani.A(gv), sani.D(0.25), sani.A(np.zeros(1, np.int32), "out"),
+                                                         sani.A(np.zeros(1), "out"), sani.I(n_)], ret="v"),
+                          sani.Call("refine_assigned", [sani.A(np.ascontiguousarray(tm_), "io"), sani.A(gv), sani.A(lab), sani.I(3), sani.A(np.zeros(1, np.int32), "out"),
+                                                        sani.A(np.zeros(1), "out"), sani.I(n_)], ret="v")))
+        own += [(specs[0][0], specs[1][0]), (specs[0][1], specs[1][1]), (specs[0][0], specs[1][1])]
+    for a, b in own + sani.threadsafe_pairs(("scoring_kernels",), ("score_and_refine", "refine_assigned"), per_kernel=3):
         bad, r = callers_interfere(V, a, b)
         if r is None:
             continue
